@@ -66,29 +66,32 @@ type msReq struct {
 	Path   string
 	XA     string
 	CC     string
+	NV     bool // the origin answers this request with another Vary field than before
 }
 
 var msAlphabet = []msReq{
-	{"hit-a", "GET", "/a", "", ""},
-	{"swr-b-304", "GET", "/b", "", ""},
-	{"swr-b2-200", "GET", "/b2", "", ""},
-	{"reval-c-304", "GET", "/c", "", ""},
-	{"replace-d-200", "GET", "/d", "", ""},
-	{"miss-e", "GET", "/e", "", ""},
-	{"post-a", "POST", "/a", "", ""},
-	{"post-b", "POST", "/b", "", ""},
-	{"variant-v-a", "GET", "/v", "a", ""},
-	{"variant-v-new", "GET", "/v", "c", ""},
-	{"reload-a", "GET", "/a", "", "no-cache"},
-	{"oic-b", "GET", "/b", "", "only-if-cached"},
-	{"post-v", "DELETE", "/v", "", ""},
-	{"swr-v-b", "GET", "/v", "b", ""},
-	{"variant-v-new2", "GET", "/v", "d", ""},
-	{"reval-v-e-304", "GET", "/v", "e", ""},
-	{"post-c", "POST", "/c", "", ""},
-	{"put-d", "PUT", "/d", "", ""},
-	{"reload-b", "GET", "/b", "", "no-cache"},
-	{"reload-v-e", "GET", "/v", "e", "no-cache"},
+	{"hit-a", "GET", "/a", "", "", false},
+	{"swr-b-304", "GET", "/b", "", "", false},
+	{"swr-b2-200", "GET", "/b2", "", "", false},
+	{"reval-c-304", "GET", "/c", "", "", false},
+	{"replace-d-200", "GET", "/d", "", "", false},
+	{"miss-e", "GET", "/e", "", "", false},
+	{"post-a", "POST", "/a", "", "", false},
+	{"post-b", "POST", "/b", "", "", false},
+	{"variant-v-a", "GET", "/v", "a", "", false},
+	{"variant-v-new", "GET", "/v", "c", "", false},
+	{"reload-a", "GET", "/a", "", "no-cache", false},
+	{"oic-b", "GET", "/b", "", "only-if-cached", false},
+	{"post-v", "DELETE", "/v", "", "", false},
+	{"swr-v-b", "GET", "/v", "b", "", false},
+	{"variant-v-new2", "GET", "/v", "d", "", false},
+	{"reval-v-e-304", "GET", "/v", "e", "", false},
+	{"post-c", "POST", "/c", "", "", false},
+	{"put-d", "PUT", "/d", "", "", false},
+	{"reload-b", "GET", "/b", "", "no-cache", false},
+	{"reload-c", "GET", "/c", "", "no-cache", false},
+	{"reload-v-e", "GET", "/v", "e", "no-cache", false},
+	{"reload-v-e-newvary", "GET", "/v", "e", "no-cache", true},
 }
 
 // msKeyPairs are always part of the quick tier: overlapping stores of two
@@ -97,7 +100,7 @@ var msAlphabet = []msReq{
 var msKeyPairs = [][2]string{
 	{"variant-v-new", "variant-v-new2"}, {"reval-v-e-304", "variant-v-new"}, {"swr-v-b", "variant-v-new"},
 	{"reval-c-304", "post-c"}, {"swr-b-304", "post-b"}, {"replace-d-200", "put-d"}, {"reval-v-e-304", "post-v"}, {"swr-v-b", "post-v"},
-	{"swr-b-304", "reload-b"}, {"reval-v-e-304", "reload-v-e"},
+	{"swr-b-304", "reload-b"}, {"reval-v-e-304", "reload-v-e"}, {"reval-v-e-304", "reload-v-e-newvary"}, {"reval-c-304", "reload-c"},
 }
 
 type msResult struct {
@@ -130,6 +133,9 @@ func msRunSchedule(reqs []msReq, vec []int) (branch []int, trace []string, resul
 		if prepop {
 			gen = "old"
 		}
+		// a reload is answered with a new full representation, whatever
+		// validators the cache added to it
+		reload := strings.Contains(req.Header.Get("Cache-Control"), "no-cache")
 		extra["X-Gen"] = []string{gen}
 		etag := `"` + res + `"`
 		rs := RespSpec{Status: 200, ETag: etag, BodySize: 30, Extra: extra}
@@ -138,14 +144,14 @@ func msRunSchedule(reqs []msReq, vec []int) (branch []int, trace []string, resul
 			rs.CC = []string{"max-age=100000"}
 		case "/b":
 			rs.CC = []string{"max-age=10, stale-while-revalidate=100000"}
-			if uc.Conditional() {
+			if uc.Conditional() && !reload {
 				return Render(&RespSpec{Status: 304, ETag: etag, Extra: extra}, uc.Enter, uc.Serial)
 			}
 		case "/b2":
 			rs.CC = []string{"max-age=10, stale-while-revalidate=100000"}
 		case "/c":
 			rs.CC = []string{"max-age=10"}
-			if uc.Conditional() {
+			if uc.Conditional() && !reload {
 				return Render(&RespSpec{Status: 304, ETag: etag, CC: []string{"max-age=100000"}, Extra: extra}, uc.Enter, uc.Serial)
 			}
 		case "/d":
@@ -155,13 +161,16 @@ func msRunSchedule(reqs []msReq, vec []int) (branch []int, trace []string, resul
 			rs.CC = []string{"max-age=100000"}
 			if req.Header.Get("X-A") == "b" {
 				rs.CC = []string{"max-age=10, stale-while-revalidate=100000"}
-				if uc.Conditional() {
+				if uc.Conditional() && !reload {
 					return Render(&RespSpec{Status: 304, ETag: etag, Vary: []string{"X-A"}, Extra: extra}, uc.Enter, uc.Serial)
 				}
 			}
 			if req.Header.Get("X-A") == "e" {
 				rs.CC = []string{"max-age=10"}
-				if uc.Conditional() {
+				if req.Header.Get("X-Nv") != "" {
+					rs.Vary = []string{"X-B"} // the representation now varies on another field
+				}
+				if uc.Conditional() && !reload {
 					return Render(&RespSpec{Status: 304, ETag: etag, Vary: []string{"X-A"}, CC: []string{"max-age=100000"}, Extra: extra}, uc.Enter, uc.Serial)
 				}
 			}
@@ -189,6 +198,9 @@ func msRunSchedule(reqs []msReq, vec []int) (branch []int, trace []string, resul
 		}
 		if r.CC != "" {
 			req.Header.Set("Cache-Control", r.CC)
+		}
+		if r.NV {
+			req.Header.Set("X-Nv", "1")
 		}
 		if res != nil {
 			res.snap = snapRequest(req)
@@ -220,8 +232,8 @@ func msRunSchedule(reqs []msReq, vec []int) (branch []int, trace []string, resul
 		res.snapQ = snapRequest(req)
 	}
 	// pre-populate sequentially (gates off), then let the short-lived entries go stale
-	for _, r := range []msReq{{"", "GET", "/a", "", ""}, {"", "GET", "/b", "", ""}, {"", "GET", "/b2", "", ""}, {"", "GET", "/c", "", ""}, {"", "GET", "/d", "", ""},
-		{"", "GET", "/v", "a", ""}, {"", "GET", "/v", "b", ""}, {"", "GET", "/v", "e", ""}} {
+	for _, r := range []msReq{{"", "GET", "/a", "", "", false}, {"", "GET", "/b", "", "", false}, {"", "GET", "/b2", "", "", false}, {"", "GET", "/c", "", "", false}, {"", "GET", "/d", "", "", false},
+		{"", "GET", "/v", "a", "", false}, {"", "GET", "/v", "b", "", false}, {"", "GET", "/v", "e", "", false}} {
 		do(r, nil)
 	}
 	prepop = false
@@ -307,8 +319,8 @@ func msRunSchedule(reqs []msReq, vec []int) (branch []int, trace []string, resul
 	}
 	// final sequential probe of every resource: what does the cache serve now?
 	final = map[string]string{}
-	for _, r := range []msReq{{"", "GET", "/a", "", ""}, {"", "GET", "/b", "", "only-if-cached"}, {"", "GET", "/v", "a", "only-if-cached"}, {"", "GET", "/v", "b", "only-if-cached"}, {"", "GET", "/v", "c", "only-if-cached"}, {"", "GET", "/e", "", "only-if-cached"},
-		{"", "GET", "/v", "d", "only-if-cached"}, {"", "GET", "/v", "e", "only-if-cached"}, {"", "GET", "/c", "", "only-if-cached"}, {"", "GET", "/d", "", "only-if-cached"}, {"", "GET", "/b2", "", "only-if-cached"}} {
+	for _, r := range []msReq{{"", "GET", "/a", "", "", false}, {"", "GET", "/b", "", "only-if-cached", false}, {"", "GET", "/v", "a", "only-if-cached", false}, {"", "GET", "/v", "b", "only-if-cached", false}, {"", "GET", "/v", "c", "only-if-cached", false}, {"", "GET", "/e", "", "only-if-cached", false},
+		{"", "GET", "/v", "d", "only-if-cached", false}, {"", "GET", "/v", "e", "only-if-cached", false}, {"", "GET", "/c", "", "only-if-cached", false}, {"", "GET", "/d", "", "only-if-cached", false}, {"", "GET", "/b2", "", "only-if-cached", false}} {
 		res := &msResult{req: r}
 		do(r, res)
 		gen, xres, st := "", "", ""
